@@ -46,7 +46,39 @@ def gen(rng, tier, index):
         cfg["persistence"] = rng.choice(["pickle", "pickle", "json"])
         weights["advance"] = 8
     ops = netgen.make_ops(rng, cfg["version"], rng.randint(15, 60 if tier == "thorough" else 45), weights, nodes=(2, 4), scenario=0.4)
-    return {"cfg": cfg, "ops": netgen.chunkify(rng, ops)}
+    ops = netgen.chunkify(rng, ops)
+    if cfg["flavour"] in ("serial", "tcp") and rng.random() < 0.3:
+        ops = _with_linkdrop(rng, ops)
+    return {"cfg": cfg, "ops": ops}
+
+
+def _is_wake(text):
+    parts = text.split(";")
+    return len(parts) == 6 and parts[2] == "3" and parts[4] in ("22", "32")
+
+
+def _with_linkdrop(rng, ops):
+    """The link breaks under the burst of one wake-up (write error): what was withheld is lost with the
+    link and must not leave the gateway later, outside a wake window, once the link is back."""
+    out, spots = [], []
+    for op in ops:
+        if op[0] == "line" and len(op) == 2 and _is_wake(op[1]):
+            spots.append(len(out))
+            out.append(op)
+        elif op[0] == "chunk" and any(_is_wake(it[0]) and (len(it) < 2 or it[1] == "\n") for it in op[1]):
+            k = next(i for i, it in enumerate(op[1]) if _is_wake(it[0]) and (len(it) < 2 or it[1] == "\n"))
+            if op[1][:k]:
+                out.append(["chunk", op[1][:k]])
+            spots.append(len(out))
+            out.append(["line", op[1][k][0]])
+            if op[1][k + 1:]:
+                out.append(["chunk", op[1][k + 1:]])
+        else:
+            out.append(op)
+    late = [i for i in spots if i >= len(out) // 3]
+    if late:
+        out.insert(rng.choice(late), ["linkdrop"])
+    return out
 
 
 def _nontrivial(probes, run_):
